@@ -37,6 +37,7 @@ def _refactor(p):
 
 
 REGISTRY = {
+    "C08": _mod("p_det"),
     "C05": _refactor("C05"),
     "C06": _refactor("C06"),
     "C01": _java("C01"),
